@@ -184,6 +184,41 @@ fn long_word_case(len: usize, k: usize) -> KyteaCase {
     case
 }
 
+/// A KyTea file with `n_words` dictionary words (seven characters over six letters) and a few
+/// hundred n-grams: the converted model is far larger than any I/O buffer (about 25 bytes per
+/// word).
+fn big_file_case(n_words: usize) -> KyteaCase {
+    let sel = |c: usize| (((c % 6) << 16) / 6 + 1) as u16;
+    let word = |k: usize| -> Vec<u16> {
+        let mut k = k;
+        (0..7)
+            .map(|_| {
+                let c = sel(k % 6);
+                k /= 6;
+                c
+            })
+            .collect()
+    };
+    let raw = kytea::RawKytea {
+        n_tags: 0,
+        char_w: 3,
+        type_w: 2,
+        dict_n: 4,
+        n_dicts: 3,
+        char_ngrams: (0..200).map(|k| (vec![sel(k), sel(k / 6), sel(k / 36)], (0..12).map(|j| ((k * 7 + j * 3) % 41) as i16 - 20).collect(), 0)).collect(),
+        type_ngrams: (0..30).map(|k| (vec![(k * 11000 % 65536) as u16, (k * 7000 % 65536) as u16], (0..12).map(|j| ((k + j) % 9) as i16 - 4).collect(), 0)).collect(),
+        words: (0..n_words).map(|k| (word(k), (1 + k % 7) as u8)).collect(),
+        dict_vec: (0..100).map(|i| (i * 37 % 201) as i16 - 100).collect(),
+        biases: vec![-12],
+        shuffle: (0..64).map(|i| (i * 7919 + 5) as u16).collect(),
+        global_models: vec![0, 0, 0],
+        subword: false,
+        word_tag_models: false,
+        texts: vec![(0..40).map(|i| (i * 9000 % 65536) as u16).collect(), (0..16).map(|i| (i * 4000 % 65536) as u16).collect()],
+    };
+    kytea::resolve_kytea(&raw)
+}
+
 pub fn run(rep: &mut Report) {
     if let Err(e) = kytea::self_test() {
         eprintln!("harness self-test failed (cannot speak the KyTea format): {e}");
@@ -231,6 +266,21 @@ Err without panic. Non-trivial = a word in >= 2 member dictionaries and >= 1 typ
         n,
         kytea::kytea_case,
         |c: &KyteaCase| test_file(&c.file, &c.texts, c.file.to_bytes().len() <= 3000),
+    );
+    rep.run_enum(
+        "big-files",
+        "KyTea files with 6,000 and 40,000 dictionary words (converted model of 150 KB / 1 MB, \
+larger than any I/O buffer) through the library (prefixes strided) and through the shipped \
+convert_kytea_model program: same oracles",
+        false,
+        [6_000usize, 40_000].into_iter().map(big_file_case),
+        |c: &KyteaCase| {
+            test_file(&c.file, &c.texts, false)?;
+            test_tool(&c.file).map(|mut i| {
+                i.nontrivial = true;
+                i
+            })
+        },
     );
     let n = rep.n(400, 10000);
     rep.run_prop(
